@@ -96,6 +96,9 @@ type Sched struct {
 	// VisibleClass says whether lock operations of a class are scheduling points at all.
 	VisibleClass [3]bool
 	MaxPoints    int
+	// Policy, when set, picks the next thread at every choice point beyond the replayed prefix (a
+	// directed schedule instead of the default "keep running"); it returns an index into enabled.
+	Policy func(label string, cur int, enabled []int) int
 	// IdleHook is called when no thread is enabled; it returns true if it made time pass
 	// (fired a timer), in which case enabledness is re-evaluated instead of reporting a deadlock.
 	IdleHook func() bool
@@ -222,6 +225,11 @@ func (s *Sched) schedule(me *Thread, label string) {
 		ids := make([]int, len(en))
 		for i, t := range en {
 			ids[i] = t.ID
+		}
+		if s.Policy != nil && (s.step >= len(s.prefix) || s.Misdrawn) {
+			if c := s.Policy(label, me.ID, ids); c >= 0 && c < len(en) {
+				idx = c
+			}
 		}
 		s.Points = append(s.Points, Point{Enabled: ids, Chosen: idx, Cur: me.ID, CurEnabled: meEnabled, Label: label,
 			Free: len(label) >= 7 && label[:7] == "op-next"})
